@@ -244,6 +244,38 @@ func c10JudgeA(c c10ACase, sets [][]docFeature) (clause, detail string) {
 			if d := sameObj("caldav", o.Path, ret.Path, o.ETag, ret.ETag, o.ModTime, ret.ModTime); d != "" {
 				return "put-result", d
 			}
+		case "put-same", "put-rel":
+			// the backend stores the object under the very path it was sent to; the client is addressed through
+			// an endpoint with a path and (put-rel) names the object relative to it: the result is the BACKEND's path
+			ret := &caldav.CalendarObject{Path: p, ETag: etag, ModTime: mt}
+			b.PutResult = ret
+			cl2, err := caldav.NewClient(w.Client(), "http://h/u/c/")
+			if err != nil {
+				return "client", err.Error()
+			}
+			name := p
+			if c.Op == "put-rel" {
+				name = strings.TrimPrefix(p, "/u/c/")
+			}
+			o, err := cl2.PutCalendarObject(ctx, name, cal)
+			if err != nil {
+				return "put-error", err.Error()
+			}
+			delivered := false
+			for _, call := range b.Snapshot() {
+				if call.Method == "PutCalendarObject" {
+					delivered = true
+					if call.Path != p {
+						return "put-path", fmt.Sprintf("backend got %q want %q", call.Path, p)
+					}
+				}
+			}
+			if !delivered {
+				return "put-not-delivered", ""
+			}
+			if d := sameObj("caldav", o.Path, ret.Path, o.ETag, ret.ETag, o.ModTime, ret.ModTime); d != "" {
+				return "put-result", d
+			}
 		}
 		return "", ""
 	}
@@ -315,6 +347,38 @@ func c10JudgeA(c c10ACase, sets [][]docFeature) (clause, detail string) {
 		}
 		if !reflect.DeepEqual(arg.Card, want) {
 			return "put-content", fmt.Sprintf("backend got %s want %s", dumpCard(arg.Card), dumpCard(want))
+		}
+		if d := sameObj("carddav", o.Path, ret.Path, o.ETag, ret.ETag, o.ModTime, ret.ModTime); d != "" {
+			return "put-result", d
+		}
+	case "put-same", "put-rel":
+		// the backend stores the object under the very path it was sent to; the client is addressed through
+		// an endpoint with a path and (put-rel) names the object relative to it: the result is the BACKEND's path
+		ret := &carddav.AddressObject{Path: p, ETag: etag, ModTime: mt}
+		b.PutResult = ret
+		cl2, err := carddav.NewClient(w.Client(), "http://h/u/c/")
+		if err != nil {
+			return "client", err.Error()
+		}
+		name := p
+		if c.Op == "put-rel" {
+			name = strings.TrimPrefix(p, "/u/c/")
+		}
+		o, err := cl2.PutAddressObject(ctx, name, card)
+		if err != nil {
+			return "put-error", err.Error()
+		}
+		delivered := false
+		for _, call := range b.Snapshot() {
+			if call.Method == "PutAddressObject" {
+				delivered = true
+				if call.Path != p {
+					return "put-path", fmt.Sprintf("backend got %q want %q", call.Path, p)
+				}
+			}
+		}
+		if !delivered {
+			return "put-not-delivered", ""
 		}
 		if d := sameObj("carddav", o.Path, ret.Path, o.ETag, ret.ETag, o.ModTime, ret.ModTime); d != "" {
 			return "put-result", d
@@ -509,15 +573,19 @@ func c10JudgeB(c c10BCase) (clause, detail string) {
 
 // ---------- part C: multiget per-href outcome (raw multistatus read independently) ----------
 
-var c10Outcomes = []string{"ok1", "ok2", "missing", "forbidden", "error"}
+var c10Outcomes = []string{"ok1", "ok2", "missing", "forbidden", "error", "wrapped-locked", "wrapped-missing"}
 
 func c10JudgeC(kind string, list []int) (clause, detail string) {
 	ext, ns, rootName := ".ics", nsCal, "calendar-multiget"
 	if kind == "carddav" {
 		ext, ns, rootName = ".vcf", nsCard, "addressbook-multiget"
 	}
-	paths := map[string]string{"ok1": "/u/c/k1/one" + ext, "ok2": "/u/c/k1/two x" + ext, "missing": "/u/c/k1/missing" + ext, "forbidden": "/u/c/k1/forbidden" + ext, "error": "/u/c/k1/error" + ext}
-	errs := map[string]error{paths["forbidden"]: webdav.NewHTTPError(403, fmt.Errorf("no")), paths["error"]: fmt.Errorf("backend exploded")}
+	paths := map[string]string{"ok1": "/u/c/k1/one" + ext, "ok2": "/u/c/k1/two x" + ext, "missing": "/u/c/k1/missing" + ext, "forbidden": "/u/c/k1/forbidden" + ext, "error": "/u/c/k1/error" + ext,
+		"wrapped-locked": "/u/c/k1/wl" + ext, "wrapped-missing": "/u/c/k1/wm" + ext}
+	// a backend may wrap its HTTP error (fmt.Errorf("...: %w", err)); the status is still the backend's own
+	errs := map[string]error{paths["forbidden"]: webdav.NewHTTPError(403, fmt.Errorf("no")), paths["error"]: fmt.Errorf("backend exploded"),
+		paths["wrapped-locked"]:  fmt.Errorf("store: %w", webdav.NewHTTPError(423, fmt.Errorf("locked"))),
+		paths["wrapped-missing"]: fmt.Errorf("store: %w", fmt.Errorf("layer: %w", webdav.NewHTTPError(404, fmt.Errorf("gone"))))}
 	var h http.Handler
 	if kind == "caldav" {
 		h = &caldav.Handler{Backend: &harness.CalBackend{Principal: "/u/", HomeSet: "/u/c/", Errs: errs, Objects: []caldav.CalendarObject{
@@ -573,6 +641,14 @@ func c10JudgeC(kind string, list []int) (clause, detail string) {
 		case "error":
 			if r.Status != 500 {
 				return "multiget-error-status", fmt.Sprintf("failing resource reported with status %d", r.Status)
+			}
+		case "wrapped-locked":
+			if r.Status != 423 {
+				return "multiget-error-status", fmt.Sprintf("resource whose backend error wraps a 423 reported with status %d", r.Status)
+			}
+		case "wrapped-missing":
+			if r.Status != 404 {
+				return "multiget-error-status", fmt.Sprintf("resource whose backend error wraps a 404 reported with status %d", r.Status)
 			}
 		}
 	}
@@ -766,7 +842,7 @@ func init() {
 				}
 			}
 			for _, n := range names {
-				for _, op := range []string{"get", "multiget", "query", "put"} {
+				for _, op := range []string{"get", "multiget", "query", "put", "put-same", "put-rel"} {
 					k++
 					acases = append(acases, c10ACase{Kind: kind, Name: n, Feats: k, Meta: k, Op: op})
 				}
